@@ -41,3 +41,19 @@ package neuronjson
 //@   calls_havoc
 //@   modifies *
 //@   ensures result == nil ==> idsNonDecr(mdb.ids)
+
+// An annotation update is a read-merge-write of the stored document: the read (getStoreData), the update of
+// the in-memory db and the write (putStoreData) lie in one critical section of the instance's updateMu
+// (C11: acknowledged field updates of one body are not lost).
+//@ func Data.storeAndUpdate
+//@   prop C11 C16
+//@   requires d != nil
+//@   safety_off
+//@   calls_havoc
+//@   lockbalance
+//@   modifies *
+//@   ghost ep int = 0
+//@   ghostset at "origData, found, err := d.getStoreData(ctx, keyStr)": ep = lockepoch("d.updateMu")
+//@   assert at "origData, found, err := d.getStoreData(ctx, keyStr)": heldw("d.updateMu")
+//@   assert at "mdb.data[bodyid] = newData": heldw("d.updateMu") && lockepoch("d.updateMu") == ep && heldw("mdb.mu")
+//@   assert at "return d.putStoreData(ctx, keyStr, newData)": heldw("d.updateMu") && lockepoch("d.updateMu") == ep
